@@ -18,7 +18,7 @@ func init() {
 		explanation: "Decided on all paths of chans/pubsub.go (go/ssa path summaries with read/write lock state of the PubSub's RWMutex): " +
 			"(guarded-by) the subscriber list is read only under RLock or Lock and written only under Lock of the same PubSub (helpers: at every call site; a PubSub allocated in the same call is exempt); (send-covered) 'no send after close': every send on a subscriber channel executes inside a lock region of that PubSub which also contains the read of the list it came from - synchronously, or in a goroutine launched inside the region that the launcher joins (wg.Wait) before leaving the region, the goroutine signalling Done after its send on every path; a goroutine must not read a variable that the enclosing loop overwrites; " +
 			"(one-mutex-per-channel) a channel taken from one PubSub's list is not stored into another PubSub (which has its own mutex); (waitgroup) wg.Add(k) runs inside the region before the first launch with k equal, as a polynomial, to the product of the trip counts of the loops enclosing the launch, Wait is on the same WaitGroup; (fan-out) every publisher ranges over the whole list (and the whole event slice, events outer) and performs exactly one send/launch of that event to that subscriber per iteration; " +
-			"(close-pairing) Unsub closes exactly the channel at the index it splices out, found by the search for the argument, in one Lock region, and touches nothing on the nil/not-found rows; UnsubAll closes every element and clears the list in one region; there is no other close; (timeout-dichotomy) OnPubTimeout is called exactly on the path where SendTimeout returned false and the hook is set, once, with the same event; (error-table), (withonly-filter), (sub-appends) as path tables. " +
+			"(close-pairing) Unsub closes exactly the channel at the index it splices out, found by the search for the argument, in one Lock region, and touches nothing on the nil/not-found rows; UnsubAll closes every element and clears the list in one region; there is no other close; (timeout-dichotomy) in every sending helper that calls SendTimeout itself OnPubTimeout is called exactly on the path where it returned false and the hook is set, once, with the same event, and a helper that delegates hands on its own event, channel, timeout and hook; (error-table), (withonly-filter), (sub-appends) as path tables. " +
 			"Two genuine defects are known and listed in known_findings.json: the fire-and-forget goroutines of Pub/PubSlice are not covered by the lock (a later Unsub closes the channel under a blocked send) and WithOnly copies a subscriber channel into a PubSub with a separate mutex. NOT decided: eventual delivery of Pub/PubSlice, liveness, deadlock freedom.",
 		assumptions: []string{"contracts of sync.RWMutex and sync.WaitGroup", "SendTimeout reports false iff it did not send (property C19)"},
 	})
